@@ -422,6 +422,25 @@ fn state_digest(model: &[Vec<(DnTypeR, DnValueR)>]) -> String {
 
 type Fail = (String, String);
 
+/// Every spelling of the comparison has to agree with the enumerations: `!=`, the operators on
+/// references, `PartialEq::ne` called by name, and equality seen through a containing value.
+#[allow(clippy::partialeq_ne_impl, clippy::op_ref)]
+fn check_ne(x: &rcgen::DistinguishedName, y: &rcgen::DistinguishedName, equal: bool, a: usize, b: usize) -> Result<(), Fail> {
+    let spellings: [(&str, bool); 5] = [
+        ("a != b", *x != *y),
+        ("&a != &b", &x != &y),
+        ("PartialEq::ne(a, b)", PartialEq::ne(x, y)),
+        ("!(Some(a) == Some(b))", !(Some(x) == Some(y))),
+        ("[a] != [b]", [x] != [y]),
+    ];
+    for (what, ne) in spellings {
+        if ne == equal {
+            return fail("dn-equality", format!("slots {a},{b}: {what} is {ne}, enumerations equal: {equal}"));
+        }
+    }
+    Ok(())
+}
+
 fn fail<T>(class: &str, d: String) -> Result<T, Fail> {
     Err((class.to_string(), d))
 }
@@ -475,6 +494,7 @@ fn apply(
             if got != want {
                 return fail("dn-equality", format!("== returned {got}, enumerations equal: {want}"));
             }
+            check_ne(&real[*a], &real[*b], want, *a, *b)?;
         }
         DnOp::New { slot } => {
             real[*slot] = rcgen::DistinguishedName::new();
@@ -691,6 +711,7 @@ fn check_all(
             if got != want {
                 return fail("dn-equality", format!("slots {a},{b}: == is {got}, enumerations equal: {want}"));
             }
+            check_ne(&real[a], &real[b], want, a, b)?;
         }
     }
     Ok(())
